@@ -28,6 +28,9 @@ CASES = {
     "poly2angles": [(None, {"--poly": [0.0, 0.5]}), (None, {"--poly": [-0.3, 0.0, 0.6]}), (None, {"--poly": [0.0, 0.2, 0.0, -0.5]})],
     "poly2angles  ": [(None, {"--poly": [0.0, 0.6, 0.0, -0.3, 0.0, 0.0]}), (None, {"--poly": [0.0, 0.0, 0.5, 0.0, 0.0]}), (None, {"--poly": [0.0, 0.4, 0.0]}),
                       (None, {"--poly": [0.3, 0.0, 0.4, 0.0, 0.0]}), (None, {"--poly": [0.0, 0.0, 0.0, 0.5]})],      # zeros at either end are part of the list
+    # polynomials with a closed-form answer (+-T_n, +-x^n-like monomials scaled below 1): typed exactly
+    "poly2angles   ": [(None, {"--poly": [-1.0, 0.0, 2.0]}), (None, {"--poly": [1.0, 0.0, -2.0]}), (None, {"--poly": [0.0, -1.0]}), (None, {"--poly": [0.0, 3.0, 0.0, -4.0]}),
+                       (None, {"--poly": [0.0, -3.0, 0.0, 4.0]}), (None, {"--poly": [-1.0, 0.0, 8.0, 0.0, -8.0]}), (None, {"--poly": [0.0, 0.0, -0.9]}), (None, {"--poly": [0.0, -0.5]})],
     "hamsim": [([3.0, 0.1], {}), ([5.5, 0.05], {})],
     "fpsearch": [([4, 0.5], {}), ([7, 0.1], {})],
     "invert": [([3, 0.3], {}), ([2.5, 0.2], {})],
